@@ -172,6 +172,28 @@ func solveOne(e *Enc, o *Obl, opts solveOpts, idx int) *SolveResult {
 		res.Model = res.Raw
 	default:
 		res.Status = "unknown"
+		// candidate counterexample from the ground (quantifier-free) part of the context
+		gfile := file + ".ground.smt2"
+		var gb strings.Builder
+		for _, l := range strings.Split(q, "\n") {
+			if strings.Contains(l, "(forall ") || strings.Contains(l, "(exists ") {
+				if strings.HasPrefix(l, "(assert (not ") && strings.HasSuffix(strings.TrimSpace(l), ")") && !strings.HasPrefix(l, "(assert (not (=") {
+					// the negated goal itself: keep
+					gb.WriteString(l + "\n")
+				}
+				continue
+			}
+			gb.WriteString(l + "\n")
+		}
+		os.WriteFile(gfile, []byte(gb.String()), 0o644)
+		ga, graw := runSolver(context.Background(), solvers[0], gfile, 3)
+		if !opts.keep {
+			os.Remove(gfile)
+		}
+		if ga == "sat" {
+			res.Model = graw
+			res.Raw += "\nCANDIDATE MODEL (ground part of the context only; may be spurious):\n" + truncate2(graw, 12000)
+		}
 	}
 	return res
 }
